@@ -564,7 +564,7 @@ def bounded_histories(ctx):
     rng = np.random.default_rng(ctx.seed + 14)
     qnames = list(QUERIES)
     mnames = list(MUTATORS)
-    ops_all = qnames + mnames + ["deepcopy"]
+    ops_all = [q for q in qnames if q != "symmetry_unique_dimers"] + mnames + ["deepcopy"]      # (the dimer query is costly: it appears in the systematic histories only)
     fails, evals, distinct = [], 0, set()
     maxlen = 3 if ctx.tier == "quick" else 4
     budget = 60 if ctx.tier == "quick" else 1500
